@@ -153,7 +153,7 @@ class Tracer:
         # dataclass-generated constructors: handled in _attr_origins
         if not callers:
             if _is_public(fi):
-                return [Origin("user", f"parameter {pname} of {fi.short}", fi, fi.node, chain)]
+                return [Origin("user", f"parameter {pname} of {fi.short}", fi, fi.node, chain)] + self._public_default(fi, pname, chain, depth, seen)
             d = fi.param_default(pname)
             if d is not None:
                 return self.origins(fi, d, None, chain, depth + 1, seen)
@@ -180,7 +180,15 @@ class Tracer:
             out += self.origins(caller, arg, at, chain + (f"{caller.short}->{fi.short}",), depth + 1, seen)
         if _is_public(fi) and self.scope is None:
             out.append(Origin("user", f"parameter {pname} of public {fi.short}", fi, fi.node, chain))
+            out += self._public_default(fi, pname, chain, depth, seen)
         return out
+
+    def _public_default(self, fi: FuncInfo, pname: str, chain, depth, seen) -> List[Origin]:
+        """What the library itself supplies when the user omits a public parameter: the declared default."""
+        d = fi.param_default(pname)
+        if d is None:
+            return []
+        return self.origins(fi, d, None, chain + (f"default of {fi.short}({pname})",), depth + 1, seen)
 
     def _forwarded(self, caller: FuncInfo, callee: FuncInfo, pname: str, chain, depth, seen) -> List[Origin]:
         """super().__init__(*args, **kwargs): the value comes from caller's own callers."""
